@@ -232,10 +232,10 @@ Proof.
     apply dec_plain; [apply N.eqb_neq; assumption|apply N.eqb_neq; assumption|apply N.ltb_ge; assumption].
   - destruct (N.ltb_spec c 65536) as [Hb|Hb].
     + unfold uesc, hex4. cbn [app]. rewrite dec_uesc, (unhex4_hex4 _ Hb).
+      assert (Hns : c < 55296 \/ 57343 < c).
+      { apply andb_false_iff in Hs2 as [Hx|Hx]; apply N.leb_gt in Hx; lia. }
       assert (Hh : is_high c = false).
-      { unfold is_high. destruct (N.leb_spec 55296 c); [|reflexivity].
-        destruct (N.leb_spec c 56319); [|reflexivity]. cbn [andb].
-        apply andb_false_iff in Hs2 as [H|H]; [apply N.leb_gt in H|apply N.leb_gt in H]; lia. }
+      { unfold is_high. apply andb_false_iff. destruct Hns; [left|right]; apply N.leb_gt; lia. }
       rewrite Hh. reflexivity.
     + set (v := c - 65536). set (hi := 55296 + v / 1024). set (lo := 56320 + v mod 1024).
       assert (Hv : v < 1048576) by (unfold v; lia).
